@@ -70,7 +70,10 @@ func runD14(t *testing.T, c d14Cfg) {
 			ai = sim.ClusterWidgetInfo
 		}
 	}
-	cfg := dworldCfg{ID: uid, Targets: []sim.ResourceInfo{ti}, FinalizeHook: c.Finalize, IgnoreStatus: c.IgnoreStatus, CustomizeHook: true,
+	// a second resource rule in the same API group/version whose ignoreStatusChanges setting is the
+	// opposite of the first rule's: the setting is per rule
+	ti2 := sim.GadgetThingInfo
+	cfg := dworldCfg{ID: uid, Targets: []sim.ResourceInfo{ti, ti2}, FinalizeHook: c.Finalize, IgnoreStatus: c.IgnoreStatus, IgnoreStatusExcept: map[string]bool{ti2.Resource: true}, CustomizeHook: true,
 		LabelSel:    &metav1.LabelSelector{MatchLabels: map[string]string{"decorate": uid}},
 		Attachments: []attachCfg{{Info: ai, Method: v1alpha1.ChildUpdateInPlace}}}
 	w := newDWorld(cfg)
@@ -190,6 +193,23 @@ func runD14(t *testing.T, c d14Cfg) {
 		p["status"] = st
 		delete(p["metadata"].(map[string]interface{}), "resourceVersion")
 		s.ExtUpdateStatus(ti.GVR(), p)
+	}
+	// the target of the second rule (opposite setting)
+	t2 := sim.NewObject(ti2, "ns2-"+uid, "t2-"+uid)
+	sim.SetLabels(t2, map[string]string{"decorate": uid})
+	t2["spec"] = sim.Obj{"kids": []interface{}{}}
+	t2Key := parentKey(t2)
+	expect("second-rule-target-add(selected)", []string{t2Key}, func() { s.MustCreate(ti2.GVR(), t2) })
+	statusOnly2 := func() {
+		p := s.Peek(ti2.GVR(), "ns2-"+uid, "t2-"+uid)
+		p["status"] = sim.Obj{"tick": int64(1)}
+		delete(p["metadata"].(map[string]interface{}), "resourceVersion")
+		s.ExtUpdateStatus(ti2.GVR(), p)
+	}
+	if c.IgnoreStatus {
+		expect("second-rule-target-update-status-only(rule without ignoreStatusChanges)", []string{t2Key}, statusOnly2)
+	} else {
+		expect("second-rule-target-update-status-only(rule with ignoreStatusChanges)", none, statusOnly2)
 	}
 	if c.IgnoreStatus {
 		expect("target-update-status-only(ignoreStatusChanges)", none, statusOnly)
